@@ -46,7 +46,15 @@ def main():
         for c in checks:
             out = sh(f"cd {ROOT} && VERIF_EVIDENCE_DIR=/dev/shm/acts-seed-evidence ./check {c} --tier quick").stdout
             det = "VIOLATION" in out
-            res.append(f"{c}:{'DETECTED' if det else 'missed'}")
+            # how many cases of the quick tier violated (a small number = a thin margin: the detection depends on
+            # few draws of the generator)
+            nv = 0
+            try:
+                ev = json.load(open(f"/dev/shm/acts-seed-evidence/{c}.json"))
+                nv = sum(ev["coverage"].get("violation_classes_seen", {}).values())
+            except Exception:
+                pass
+            res.append(f"{c}:{'DETECTED' if det else 'missed'}({nv})")
             for l in out.splitlines():
                 if l.strip().startswith("class:") and len(classes) < 3:
                     classes.append(l.strip()[7:160])
@@ -54,7 +62,7 @@ def main():
         rows.append((n, " ".join(res), "; ".join(classes), meta.get("idea", "")))
         print(n, " ".join(res))
     with open(f"{ROOT}/seeded/STATUS.md", "w") as f:
-        f.write(f"# seeded changes against /repo at {head}\n\n| change | quick checks | first classes reported |\n|---|---|---|\n")
+        f.write(f"# seeded changes against /repo at {head}\n\n(in parentheses: number of violating cases in the quick tier)\n\n| change | quick checks | first classes reported |\n|---|---|---|\n")
         for n, r, c, _ in rows:
             f.write(f"| {n} | {r} | {c.replace('|', '/')} |\n")
     bad = [r for r in rows if "DETECTED" not in r[1]]
